@@ -65,3 +65,223 @@ def harness_tmp(ctx, args, timeout=1500):
         return ctx.harness("wc", args, timeout=timeout, env={"TMPDIR": tmp})
     finally:
         shutil.rmtree(tmp, ignore_errors=True)
+
+
+# --------------------------------------------------------------------------
+# WorkingCopy model (C23, C24, C25, C27): shared runner
+
+PATHS = [["gi"], ["d"], ["d", "gi"], ["d", "x"], ["d", "y"], ["f"]]
+
+# which property owns which verdict of Trace_WorkingCopy (spec/WorkingCopy.tla, VERDICTS)
+OWNER = {
+    "SnapshotOK": "C23", "SnapshotChangedDisk": "C23", "Panic:Snapshot": "C23", "Error:Snapshot": "C23",
+    "NoStrayEntries:Snapshot": "C23", "SnapshotChangedSparse": "C23",
+    "CheckOutOK": "C24", "CheckOutTree": "C24", "SnapshotAfterCheckoutSame": "C24", "Error:CheckOut": "C24",
+    "NoStrayEntries:CheckOut": "C24", "CheckOutChangedSparse": "C24",
+    "CheckOutSafe": "C25", "Panic:CheckOut": "C25",
+    "SparseOK": "C27", "Panic:SetSparse": "C27", "Error:SetSparse": "C27", "SnapshotOutsideSparse": "C27",
+    "NoStrayEntries:SetSparse": "C27",
+}
+
+
+def _match(sp, p):
+    return any(list(q) == list(p[:len(q)]) for q in sp)
+
+
+def _pre(rec, i):
+    """observation before step i (0-based); the initial state if i == 0"""
+    if i > 0:
+        return rec["obs"][i - 1]
+    a = {"k": "absent", "c": 0, "x": False, "t": "", "m": []}
+    return {"disk": [a] * 6, "tree": [a] * 6, "fs": [{"k": "none", "x": False}] * 6, "sparse": [[]]}
+
+
+def wc_signature(rec, verdict):
+    """Structural signature of a violation.  Panics get the shape of the pre-state (the known
+    findings F1-F3 of spec/WorkingCopy.tla); a panic of any other shape gets ':other'."""
+    if not verdict.startswith("Panic:") or rec.get("op") != "wc" or not rec["obs"]:
+        return verdict
+    i = len(rec["obs"]) - 1
+    st, pre, msg = rec["steps"][i], _pre(rec, i), rec["obs"][i].get("msg", "")
+    kind = lambda v: v["k"]
+    if verdict == "Panic:SetSparse":
+        sp = st["sp"]
+        for n, p in enumerate(PATHS):
+            if _match(pre["sparse"], p) and not _match(sp, p) and kind(pre["tree"][n]) != "absent":
+                par = kind(pre["disk"][PATHS.index(p[:-1])]) if len(p) > 1 else "dir"
+                if kind(pre["disk"][n]) == "dir" or par in ("file", "symlink"):
+                    if "left == right" in msg:
+                        return "Panic:SetSparse:leaving-path-obstructed"
+        return "Panic:SetSparse:other"
+    if verdict == "Panic:Snapshot" and "left == right" in msg:
+        under = lambda p: [m for m, q in enumerate(PATHS) if len(q) > len(p) and q[:len(p)] == p]
+        # F2 and F5 are left-overs of a SKIPPED update entry: only then is the shape the known one
+        skipped_before = any(o["stats"]["skipped"] > 0 for o in rec["obs"][:i])
+        for n, p in enumerate(PATHS):
+            if skipped_before and pre["fs"][n]["k"] != "none" and kind(pre["disk"][n]) == "dir":
+                return "Panic:Snapshot:file-state-on-directory"
+        for n, p in enumerate(PATHS):
+            if kind(pre["disk"][n]) in ("file", "symlink") and _match(pre["sparse"], p) \
+                    and any(kind(pre["tree"][m]) == "conflict" for m in under(p)):
+                return "Panic:Snapshot:file-replaces-directory-with-conflict"
+        for n, p in enumerate(PATHS):
+            if skipped_before and pre["fs"][n]["k"] != "none" and not _match(pre["sparse"], p):
+                return "Panic:Snapshot:stale-file-state-outside-sparse"
+        return "Panic:Snapshot:other"
+    if verdict == "Panic:Snapshot":
+        return "Panic:Snapshot:other"
+    if verdict == "Panic:CheckOut":
+        new = st["tree"]
+        for n, p in enumerate(PATHS):
+            if _match(pre["sparse"], p) and kind(new[n]) != "absent" and kind(pre["disk"][n]) in ("file", "symlink"):
+                for m, q in enumerate(PATHS):
+                    if len(q) > len(p) and q[:len(p)] == p and _match(pre["sparse"], q) and kind(pre["tree"][m]) != "absent":
+                        if "sorted" in msg:
+                            return "Panic:CheckOut:unsorted-changed-file-states"
+        return "Panic:CheckOut:other"
+    return verdict + ":other"
+
+
+JJ = ("Snapshot", "CheckOut", "SetSparse")
+
+
+def _steps_with_edit_before(rec, action):
+    """indexes of `action` steps that have a user edit since the previous jj action"""
+    out, dirty = [], False
+    for i, s in enumerate(rec.get("steps", [])):
+        if s["a"] == action and dirty:
+            out.append(i)
+        dirty = (dirty or s["a"] not in JJ) and s["a"] not in JJ
+        if s["a"] in JJ:
+            dirty = False
+    return out
+
+
+NONTRIVIAL = {
+    # a snapshot that has user edits to record
+    "C23": lambda r: r.get("op") == "wc" and bool(_steps_with_edit_before(r, "Snapshot")),
+    # at least two check-outs of different trees
+    "C24": lambda r: r.get("op") == "wc" and len({json.dumps(s["tree"]) for s in r["steps"] if s["a"] == "CheckOut"}) >= 2,
+    # a check-out with user edits (foreign or modified files) since the last jj action
+    "C25": lambda r: r.get("op") == "wc" and bool(_steps_with_edit_before(r, "CheckOut")),
+    # at least two sparse pattern changes
+    "C27": lambda r: r.get("op") == "wc" and sum(1 for s in r["steps"] if s["a"] == "SetSparse") >= 2,
+}
+RULES = {
+    "C23": "scripts with a Snapshot that follows user edits",
+    "C24": "scripts with check-outs of at least two different trees",
+    "C25": "scripts with a CheckOut that follows user edits (foreign / modified files in the way)",
+    "C27": "scripts with at least two sparse pattern changes",
+}
+
+
+def _dedupe(behaviours):
+    seen, out = set(), []
+    for b in behaviours:
+        k = json.dumps(b, sort_keys=True)
+        if k not in seen:
+            seen.add(k)
+            out.append(b)
+    return out
+
+
+def run_wc(ctx, prop, mc_cfgs, neg_cfgs, gen_cfgs, n_random, focus, script_len=12):
+    """Common body of C23/C24/C25/C27.
+    mc_cfgs: [cfg]; neg_cfgs: [(cfg, invariant)]; gen_cfgs: [(cfg, number of behaviours)]"""
+    import math
+    for cfg in mc_cfgs:
+        r = vf.tlc_mc("MC_WorkingCopy", "MC_WorkingCopy_" + cfg, workers=ctx.q(8, 12), timeout=ctx.q(900, 2400))
+        ctx.add_mc(r, "MC_WorkingCopy_" + cfg)
+    def neg(ci):
+        vf.tlc_mc("MC_WorkingCopy", "MC_WorkingCopy_" + ci[0], expect_violation=ci[1], workers=3, timeout=900)
+        return {"run": "negative:" + ci[0], "outcome": "fails as required (%s)" % ci[1]}
+
+    with ThreadPoolExecutor(max_workers=4) as ex:
+        ctx.cov["tlc_runs"] += list(ex.map(neg, neg_cfgs))
+    # S->I: behaviours generated by TLC (simulation of the model, seeded)
+    behaviours = []
+    for cfg, n in gen_cfgs:
+        bs, g = vf.tlc_generate("MC_WorkingCopy", "MC_WorkingCopy_" + cfg, simulate="num=%d" % math.ceil(n / 8),
+                                workers=8, seed=ctx.seed, timeout=ctx.q(900, 2400))
+        ctx.cov["tlc_runs"].append({"run": "generate:" + cfg, "behaviours": len(bs), "wall_s": round(g.get("wall", 0), 1)})
+        behaviours += bs
+    behaviours = _dedupe(behaviours)
+    if len(behaviours) < sum(n for _, n in gen_cfgs) // 3:
+        raise vf.ToolError("generator produced only %d behaviours" % len(behaviours))
+    s2i = ctx.path("s2i.ndjson")
+    harness_parallel(ctx, "replay", behaviours, s2i, par=8, timeout=ctx.q(900, 2400))
+    # I->S: seeded random scripts executed by the harness's own driver
+    tmp = scratch_dir()
+    try:
+        parts = []
+
+        def one(i):
+            o = ctx.path("i2s-%d.ndjson" % i)
+            ctx.harness("wc", ["random", "--out", o, "--seed", ctx.seed * 1000 + i, "--n", math.ceil(n_random / 8),
+                               "--len", script_len, "--focus", focus], timeout=ctx.q(900, 2400), env={"TMPDIR": tmp})
+            return o
+
+        with ThreadPoolExecutor(max_workers=8) as ex:
+            parts = list(ex.map(one, range(8)))
+    finally:
+        shutil.rmtree(tmp, ignore_errors=True)
+    trace = ctx.path("wc-trace.ndjson")
+    n_s2i = n_i2s = 0
+    with open(trace, "w") as w:
+        first = True
+        for src in [s2i] + parts:
+            for line in open(src):
+                if not line.strip():
+                    continue
+                if '"op":"universe"' in line:
+                    if first:
+                        w.write(line)
+                        first = False
+                    continue
+                w.write(line)
+                if src == s2i:
+                    n_s2i += 1
+                else:
+                    n_i2s += 1
+    if n_s2i != len(behaviours):
+        raise vf.ToolError("replayer returned %d records for %d behaviours" % (n_s2i, len(behaviours)))
+    j = vf.tlc_judge("Trace_WorkingCopy", trace, chunk=ctx.q(150, 400), timeout=1800, par=8)
+    recs = j["records"]
+    ctx.cov["states"] += j["states"]
+    ctx.cov["transitions"] += j["transitions"]
+    ctx.cov["traces_validated_against_impl"] += n_s2i + n_i2s
+    ctx.cov["evaluations"] += sum(len(r.get("steps", [])) for r in recs)
+    ctx.cov["divergence_from_reference"] += len(j["diverges"])
+    ctx.cov["s2i_behaviours"] = n_s2i
+    ctx.cov["i2s_scripts"] = n_i2s
+    nt = NONTRIVIAL[prop]
+    ctx.cov["distinct_nontrivial"] += len({json.dumps(r, sort_keys=True) for r in recs if nt(r)})
+    other = {}
+    for idx, verdict in j["bad"]:
+        r = recs[idx]
+        if verdict.startswith("harness:"):
+            raise vf.ToolError("harness produced a malformed record %d: %s %s" % (idx, verdict, json.dumps(r)[:1500]))
+        own = OWNER.get(verdict)
+        if own is None:
+            raise vf.ToolError("verdict without owner: %s" % verdict)
+        if own == prop:
+            ctx.violation(wc_signature(r, verdict), verdict, r)
+        else:
+            other[verdict] = other.get(verdict, 0) + 1
+    ctx.cov["verdicts_owned_by_other_properties"] = other
+    ctx.cov["rule"] = ("records = one script (TLC-generated behaviour or seeded random script) executed on a real "
+                       "LocalWorkingCopy with the projected state judged after every action; non-trivial = "
+                       + RULES[prop] + "; distinct by full record")
+    k = 0
+    for r in recs:
+        if nt(r) and k < 3:
+            ctx.sample({"xp": r["xp"], "steps": [dict((a, b) for a, b in s.items() if a != "tree") for s in r["steps"]]}, 3)
+            k += 1
+    ctx.assumptions += [
+        "path universe {.gitignore, d, d/.gitignore, d/x, d/y, f}; 2 file contents, exec bit, 2 symlink targets, 7 ignore files "
+        "over single-component patterns, 3-term file conflicts; the projection functions of harness/jjconf/src/bin/wc/script.rs are correct",
+        "conflict marker files on disk are decoded with jj's own parse_conflict (materialise/parse inverse is C05's subject)",
+        "every jj action runs in a workspace reloaded from disk; user edits happen between jj commands, not during them",
+        "harness built with debug assertions on: a debug_assert firing inside jj is observed as a panic",
+    ]
+    return j
